@@ -7,6 +7,7 @@ import (
 	"encoding/json"
 	"fmt"
 	"os"
+	"time"
 
 	"github.com/Azbesciak/RealDecisionMaker/lib/model"
 	"github.com/Azbesciak/RealDecisionMaker/lib/utils"
@@ -33,6 +34,26 @@ func decideJSON(body []byte) (status int, out []byte) {
 		return 500, b
 	}
 	return 200, b
+}
+
+// decideJSONTimeout: decideJSON with a watchdog (a handler that never returns keeps spinning in a leaked
+// goroutine until the harness exits; the caller must treat timedOut as "no answer").
+func decideJSONTimeout(body []byte, d time.Duration) (status int, out []byte, timedOut bool) {
+	type res struct {
+		st  int
+		out []byte
+	}
+	ch := make(chan res, 1)
+	go func() {
+		st, out := decideJSON(body)
+		ch <- res{st, out}
+	}()
+	select {
+	case r := <-ch:
+		return r.st, r.out, false
+	case <-time.After(d):
+		return -2, nil, true
+	}
 }
 
 // serveStdio: one JSON request per line on stdin, "<status> <body>" per line on stdout.
